@@ -13,10 +13,22 @@
    result; the driver applies x[index] and TLC evaluates the clauses (plus that
    shape) on what it observes: new axes placed one position off, or counted
    wrongly against dropped integer axes, show up as declared chunks that do not
-   fit the computed blocks.                                                    *)
-EXTENDS ArrayMeta, TLC, Json
+   fit the computed blocks.
 
-CONSTANTS Shapes, IdxShapes, MaxLen
+   Third family: every 1-d slice with step in +-1..+-3 and start / stop variants
+   on ALL chunkings of the extents in SliceExtents (up to 7 or more, so that the
+   per-chunk counts are not palindromic): a negative step lists the pieces back
+   to front, and a chunks tuple with the right sum whose parts are attached to
+   the wrong blocks is exactly what clause BlockShape sees.
+   Fourth family: operations that take an explicit dtype (scans and reductions
+   with dtype=, astype) on all chunkings of small 1-d arrays of another dtype:
+   the declared dtype must be the requested one and - clause Dtype - every
+   single block must have it, not only the assembled result.                  *)
+EXTENDS ArrayMeta, Indexing, TLC, Json
+
+CONSTANTS Shapes, IdxShapes, MaxLen,
+          SliceExtents,   \* slice family: set of 1-d extents
+          DtypeExtents    \* dtype family: set of 1-d extents
 
 VARIABLES case, out
 
@@ -82,6 +94,12 @@ OutShape(ex, shape) ==
          [] Head(ex) = "f" -> <<Head(shape)>> \o OutShape(Tail(ex), Tail(shape))
          [] Head(ex) = "s" -> <<IF Head(shape) > 0 THEN Head(shape) - 1 ELSE 0>> \o OutShape(Tail(ex), Tail(shape))
 
+\* start / stop of the slice family: absent, inside, negative, at and beyond the end
+SliceBounds(n) == {None, 1, -2, n - 1, n + 1}
+\* operations with an explicit dtype; "/s" sequential and "/b" Blelloch scans
+Scans    == {"cumsum/s", "cumsum/b", "cumprod/s", "cumprod/b", "nancumsum/s", "nancumprod/b"}
+DtypeOps == Scans \cup {"sum", "prod", "mean", "nansum", "astype"}
+
 Init ==
   \/ \E sh \in Shapes : \E ch \in NDChunkings(sh) :
         /\ case = [fam |-> "from_array", shape |-> sh, chunks |-> ch]
@@ -89,6 +107,14 @@ Init ==
   \/ \E sh \in IdxShapes : \E ch \in NDChunkings(sh) : \E ix \in IdxSeqs(Len(sh)) :
         /\ case = [fam |-> "index", shape |-> sh, chunks |-> ch, idx |-> ix]
         /\ out = ToJson([c |-> case, e |-> [shape |-> OutShape(Expand(ix, Len(sh)), sh)]])
+  \/ \E n \in SliceExtents : \E ch \in Chunkings(n) : \E a \in SliceBounds(n) : \E b \in SliceBounds(n) :
+     \E st \in {-3, -2, -1, 1, 2, 3} :
+        /\ case = [fam |-> "slice", shape |-> <<n>>, chunks |-> <<ch>>, a |-> a, b |-> b, st |-> st]
+        /\ out = ToJson([c |-> case, e |-> [shape |-> <<Len(SliceIdx(n, a, b, st))>>]])
+  \/ \E n \in DtypeExtents : \E ch \in Chunkings(n) : \E op \in DtypeOps : \E src \in {"i8", "f8"} :
+     \E dst \in {"i4", "i8", "f4", "f8"} :
+        /\ case = [fam |-> "dtype", shape |-> <<n>>, chunks |-> <<ch>>, op |-> op, src |-> src, dst |-> dst]
+        /\ out = ToJson([c |-> case, e |-> [shape |-> IF op \in Scans \cup {"astype"} THEN <<n>> ELSE <<>>, dt |-> dst]])
 Next == UNCHANGED <<case, out>>
 
 \* the observation of a correct implementation satisfies every clause
